@@ -8,7 +8,9 @@ From Coq Require Import List NArith Bool Arith.
 From Gluon Require Import Base.DecBytes Model.Rfc822Split Model.Rfc822Header Model.Rfc822Sections Model.LiteralFrame
   Model.PList Model.StructWriter
   Model.TokenLoop Gen.FactsRfc5322
-  Proofs.Rfc822HeaderProofs Proofs.Rfc822SectionsProofs Proofs.PListProofs Proofs.StructWriterProofs Proofs.TokenLoopProofs.
+  Gen.FactsHeaderKey
+  Proofs.Rfc822HeaderProofs Proofs.Rfc822SectionsProofs Proofs.PListProofs Proofs.StructWriterProofs Proofs.TokenLoopProofs
+  Proofs.Rfc822SpliceProofs.
 Import ListNotations.
 
 (* ---- the header parser, for ANY bytes ---- *)
@@ -26,6 +28,29 @@ Print Assumptions C12_header_parser_bounded.
 Theorem C12_header_parser_monotone : forall h es, new_header h = HOk es -> strictly_increasing es.
 Proof. intros h es H. exact (tile_increasing _ _ _ (new_header_tile h es H)). Qed.
 Print Assumptions C12_header_parser_monotone.
+
+(* ---- which bytes a header field name may consist of: exactly 33..126 without ':' ----
+   (a name outside this set makes NewHeader fail and the entity lose its whole header, so the set matters) *)
+(* T1 (translator/facts_headerkey.go): the comparison constants read from validateHeaderField are the model's *)
+Theorem C12_field_name_byte_range_is_the_sources : forall b,
+  key_byte_ok b = (N.leb header_key_lo b && N.leb b header_key_hi) /\ header_key_lo = 33%N /\ header_key_hi = 126%N.
+Proof. exact key_byte_ok_is_fact_range. Qed.
+Print Assumptions C12_field_name_byte_range_is_the_sources.
+
+(* only such names: every key-bearing entry has a non-empty name of bytes 33..126 other than ':' *)
+Theorem C12_field_name_bytes : forall h e n, keyStart e <= length h ->
+  hp_next (length h) (skipn (keyStart e) h) (keyStart e) = NOk e n -> has_key e = true ->
+  e_key h e <> [] /\ forallb (fun b => key_byte_ok b && negb (N.eqb b COLON)) (e_key h e) = true.
+Proof. exact keyed_entry_name_bytes. Qed.
+Print Assumptions C12_field_name_bytes.
+
+(* all such names: a line `name: value CRLF` whose name is any non-empty string over that set, followed by a byte that
+   is no white space / CR / LF / ':', parses as one entry with exactly that name *)
+Theorem C12_field_name_accepted : forall len key val R k, valid_key key -> no_crlf val = true -> plain_head R ->
+  exists e, hp_next len (join_line key val ++ R) k = NOk e (k + length (join_line key val)) /\
+            keyStart e = k /\ keyEnd e = k + length key /\ valueEnd e = k + length (join_line key val).
+Proof. exact hp_next_inserted_line. Qed.
+Print Assumptions C12_field_name_accepted.
 
 (* ---- the boundary scanner, for ANY data and boundary ---- *)
 (* it neither panics (no slice expression out of range) nor loops; every part it reports lies inside the data,
